@@ -31,7 +31,7 @@ def shortest_path(a):
 
 def dag(a):
     m = mk_matrix(a['m'])
-    order = None if a.get('order') is None else np.array(a['order'], dtype=int)
+    order = None if a.get('order') is None else np.array(a['order'], dtype=int).astype(a.get('order_dtype', 'int64'))
     p = get_dag(m, source=_src(a.get('source')), order=order)
     return {'shape': list(p.shape), 'edges': csr_edges(p)}
 
